@@ -147,15 +147,29 @@ Fixpoint d14_node (nd : node) : bool :=
   end.
 Definition known_D14 (cs : list node) : bool := existsb d14_node cs.
 
-(* D28 (wrappers.rs:~260): a component-type item containing a payload-less `stream` inside a nested component /
-   instance type declaration -- exactly the items the harness lists in the case's [sf] table with a different image *)
+(* D28 / D29 (wrappers.rs): a component-type item that the re-encoding helpers change -- exactly the items the
+   harness lists in the case's [sf] table with a different image.  D28: a payload-less `stream` inside a nested
+   component / instance type declaration comes back as `future`; D29: an explicit core rec group inside an
+   instance type declaration (or inside a nested component type declaration) comes back as separate types.
+   [reenc_hit sf t]: some component-type item of the tree (any depth) is re-encoded to a different item. *)
 Fixpoint sf_hit (sf : list (N * N)) (nd : node) : bool :=
   match nd with
   | NItems ICompType its => existsb (fun t => negb (sf_apply sf t =? t)) its
   | NComp cs => existsb (sf_hit sf) cs
   | _ => false
   end.
-Definition known_D28 (sf : list (N * N)) (cs : list node) : bool := existsb (sf_hit sf) cs.
+Definition reenc_hit (sf : list (N * N)) (cs : list node) : bool := existsb (sf_hit sf) cs.
+Fixpoint hit_items (sf : list (N * N)) (nd : node) : list N :=
+  match nd with
+  | NItems ICompType its => filter (fun t => negb (sf_apply sf t =? t)) its
+  | NComp cs => flat_map (hit_items sf) cs
+  | _ => []
+  end.
+Fixpoint dedup (l : list N) : list N :=
+  match l with
+  | [] => []
+  | x :: r => x :: filter (fun y => negb (y =? x)) (dedup r)
+  end.
 
 (* nesting depth (root = 0; a module or component directly in the root = 1) is [Comp.depth] *)
 
@@ -170,7 +184,8 @@ Inductive observed :=
 Record ccase := mkCase {
   c_in : list node;          (* decoded input *)
   c_valid : bool;            (* the validator (all features) accepts the input *)
-  c_sf : list (N * N);       (* component-type item |-> same item with nested payload-less streams as futures *)
+  c_sf : list (N * N);       (* component-type item |-> the item as wrappers.rs re-encodes it (only where that differs) *)
+  c_qk : list (N * N);       (* component-type item |-> number of the wrappers.rs quirk that fires on it (28, 29) *)
   c_stream : list N;         (* flatcode of the payload sequence Parser::parse_all produced for the input *)
   c_obs : observed }.
 
@@ -193,8 +208,17 @@ Definition holds27 (c : ccase) : bool :=
   | _ => false
   end.
 
+(* the classes of the quirks that fire on the re-encoded items; 99 = a re-encoded item without a listed quirk *)
+Definition quirk_classes (c : ccase) : list N :=
+  if reenc_hit (c_sf c) (c_in c)
+  then match flat_map (fun t => map snd (filter (fun e => fst e =? t) (c_qk c)))
+                      (flat_map (hit_items (c_sf c)) (c_in c)) with
+       | [] => [99]
+       | ks => dedup ks
+       end
+  else [].
 Definition classes27 (c : ccase) : list N :=
-  (if known_D14 (c_in c) then [14] else []) ++ (if known_D28 (c_sf c) (c_in c) then [28] else []).
+  (if known_D14 (c_in c) then [14] else []) ++ quirk_classes c.
 
 Definition verdict27 (c : ccase) : bool * bool * bool * list N :=
   (agree c, domain27 c, holds27 c, classes27 c).
